@@ -16,7 +16,7 @@ import numpy as np
 
 from symx.core import SBool, is_sym, land, lor, lnot, implies, iff, ite, lift_int
 
-KINDS = ("ea", "de", "shade", "cma", "local", "lhs", "sobol")
+KINDS = ("ea", "mwea", "sea-xover", "ga", "sea-adaptive", "de", "shade", "cma", "local", "lhs", "sobol")
 
 
 class CallLog:
@@ -133,8 +133,18 @@ class StubGenerator:
 
 def level_config(kind, problem, lsc, generations, pop=4):
     from pyhms import config as C
+    from pyhms.demes.single_pop_eas import sea as _sea
     from pyhms.demes.single_pop_eas.sea import SEA
 
+    variants = {"mwea": _sea.MWEA, "sea-xover": _sea.SEAWithCrossover, "ga": _sea.GAStyleSEA, "sea-adaptive": _sea.SEAWithAdaptiveMutation}
+    if kind in variants:
+        extra = dict(p_mutation=0.5, p_crossover=0.7)
+        if kind == "sea-adaptive":
+            extra["mutation_std_step"] = 0.1
+        if kind == "mwea":
+            extra = dict(election_group_size=3)
+        return C.EALevelConfig(ea_class=variants[kind], generations=generations, problem=problem, pop_size=max(pop, 4), mutation_std=0.5, lsc=lsc,
+                               sample_std_dev=0.3, k_elites=1, **extra)
     if kind == "ea":
         return C.EALevelConfig(ea_class=SEA, generations=generations, problem=problem, pop_size=pop, mutation_std=0.5, lsc=lsc, sample_std_dev=0.3)
     if kind == "de":
